@@ -169,3 +169,78 @@ func vfH_C08_format(tier int) {
 	}
 	vfReach("C08_format/roundtrip")
 }
+
+// duration literals inside statements: the lexer hands the whole spelling (all components) to
+// ParseDuration, so the literal in the AST is the exact sum, wherever a duration can be written
+func vfH_C08_instatement(tier int) {
+	vfIntArith()
+	k := 1 + vfChoice(2+tier)
+	var text []byte
+	var sum c08Sum
+	for c := 0; c < k; c++ {
+		m := 1 + vfChoice(2)
+		u := c08Units[vfChoice(len(c08Units))]
+		ds := make([]byte, m)
+		for i := range ds {
+			ds[i] = vfDigit()
+		}
+		text = append(text, ds...)
+		text = append(text, u.sp...)
+		sum.add(ds, u.mult)
+	}
+	dur := string(text)
+	frame := vfChoice(5)
+	var stmtText string
+	switch frame {
+	case 0:
+		stmtText = "SELECT count(a) FROM m GROUP BY time(" + dur + ")"
+	case 1:
+		stmtText = "ALTER RETENTION POLICY p ON d SHARD DURATION " + dur
+	case 2:
+		stmtText = "SELECT a FROM m WHERE time > now() - " + dur
+	case 3:
+		stmtText = "CREATE CONTINUOUS QUERY q ON d RESAMPLE EVERY " + dur + " BEGIN SELECT count(a) INTO t FROM m GROUP BY time(1s) END"
+	default:
+		stmtText = "CREATE DATABASE d WITH DURATION " + dur + " NAME r"
+	}
+	vfNote(stmtText)
+	stmt, err := ParseStatement(stmtText)
+	if err != nil {
+		// the only validation in these frames: RESAMPLE EVERY must be positive
+		vfAssert(vfAnd(frame == 3, sum.total == 0), "C08_instatement/statement-with-a-valid-duration-literal-is-accepted")
+		return
+	}
+	var got time.Duration
+	found := false
+	switch s := stmt.(type) {
+	case *SelectStatement:
+		if frame == 0 && len(s.Dimensions) == 1 {
+			if c, ok := s.Dimensions[0].Expr.(*Call); ok && len(c.Args) == 1 {
+				if l, ok := c.Args[0].(*DurationLiteral); ok {
+					got, found = l.Val, true
+				}
+			}
+		} else if b, ok := s.Condition.(*BinaryExpr); ok {
+			if r, ok := b.RHS.(*BinaryExpr); ok {
+				if l, ok := r.RHS.(*DurationLiteral); ok {
+					got, found = l.Val, true
+				}
+			}
+		}
+	case *AlterRetentionPolicyStatement:
+		if s.ShardGroupDuration != nil {
+			got, found = *s.ShardGroupDuration, true
+		}
+	case *CreateContinuousQueryStatement:
+		got, found = s.ResampleEvery, true
+	case *CreateDatabaseStatement:
+		if s.RetentionPolicyDuration != nil {
+			got, found = *s.RetentionPolicyDuration, true
+		}
+	}
+	vfAssert(found, "C08_instatement/one-duration-literal-where-it-was-written")
+	if found {
+		vfAssert(sum.exact(false, got), "C08_instatement/literal-is-the-exact-sum-of-all-components")
+	}
+	vfReach("C08_instatement/ok")
+}
